@@ -1481,9 +1481,86 @@ def _flatten_private_bases(tree):
     return count
 
 
+def _closure_factories(tree):
+    """def make(a, b): def f(x): return E; return f   is a lambda factory: make(p, q) -> (lambda x: E[a := p, b := q]).
+    Then  v = <lambda>  bound once in a function and used as  set(map(v, it)) / list(map(v, it)) / v(arg)  is applied:
+    {E[x := y] for y in it} / [..] / E[x := arg]."""
+    facts = {}
+    for st in tree.body:
+        if not (isinstance(st, ast.FunctionDef) and not st.decorator_list):
+            continue
+        a = st.args
+        if a.vararg or a.kwarg or a.kwonlyargs or a.posonlyargs or a.defaults:
+            continue
+        body = [x for x in st.body if not (isinstance(x, ast.Expr) and isinstance(x.value, ast.Constant))]
+        if len(body) == 2 and isinstance(body[0], ast.FunctionDef) and isinstance(body[1], ast.Return) and isinstance(body[1].value, ast.Name) and body[1].value.id == body[0].name and not body[0].decorator_list:
+            inner = body[0]
+            ia = inner.args
+            if ia.vararg or ia.kwarg or ia.kwonlyargs or ia.posonlyargs or ia.defaults:
+                continue
+            ib = [x for x in inner.body if not (isinstance(x, ast.Expr) and isinstance(x.value, ast.Constant))]
+            if len(ib) == 1 and isinstance(ib[0], ast.Return) and ib[0].value is not None and not any(isinstance(n, (ast.Lambda, ast.Yield, ast.NamedExpr)) for n in ast.walk(ib[0].value)):
+                facts[st.name] = ([p.arg for p in a.args], ia, ib[0].value)
+    count = [0]
+
+    class _F(ast.NodeTransformer):
+        def visit_Call(self, node):
+            self.generic_visit(node)
+            if isinstance(node.func, ast.Name) and node.func.id in facts and not node.keywords and not any(isinstance(x, ast.Starred) for x in node.args):
+                params, ia, expr = facts[node.func.id]
+                if len(node.args) == len(params) and all(_simple(x) for x in node.args):
+                    count[0] += 1
+                    return ast.copy_location(ast.Lambda(args=copy.deepcopy(ia), body=_Subst(dict(zip(params, node.args))).visit(copy.deepcopy(expr))), node)
+            return node
+
+    if facts:
+        _F().visit(tree)
+    # apply lambdas bound once to a local
+    for fn in [n for n in ast.walk(tree) if isinstance(n, ast.FunctionDef)]:
+        stores = {}
+        for n in ast.walk(fn):
+            if isinstance(n, ast.Name) and isinstance(n.ctx, ast.Store):
+                stores[n.id] = stores.get(n.id, 0) + 1
+        lams = {}
+        for st in fn.body:
+            if isinstance(st, ast.Assign) and len(st.targets) == 1 and isinstance(st.targets[0], ast.Name) and isinstance(st.value, ast.Lambda) and stores.get(st.targets[0].id) == 1 and _simple(st.value):
+                free = {n.id for n in ast.walk(st.value.body) if isinstance(n, ast.Name)} - {a.arg for a in st.value.args.args}
+                if not any(stores.get(x) for x in free if x != st.targets[0].id and stores.get(x, 0) > 1):
+                    lams[st.targets[0].id] = st.value
+        if not lams and not any(isinstance(n, ast.Lambda) for n in ast.walk(fn)):
+            continue
+
+        class _A(ast.NodeTransformer):
+            def visit_Call(self, node):
+                self.generic_visit(node)
+                f = node.func
+                if isinstance(f, ast.Name) and f.id in lams and not node.keywords:
+                    new = _Beta().visit(ast.copy_location(ast.Call(func=copy.deepcopy(lams[f.id]), args=node.args, keywords=[]), node))
+                    if not (isinstance(new, ast.Call) and isinstance(new.func, ast.Lambda)):
+                        count[0] += 1
+                        return new
+                if isinstance(f, ast.Name) and f.id in ("set", "list", "tuple") and len(node.args) == 1 and not node.keywords and isinstance(node.args[0], ast.Call) and isinstance(node.args[0].func, ast.Name) and node.args[0].func.id == "map" and len(node.args[0].args) == 2 and not node.args[0].keywords:
+                    g, it = node.args[0].args
+                    lam = lams.get(g.id) if isinstance(g, ast.Name) else g if isinstance(g, ast.Lambda) and _simple(g) else None
+                    if lam is not None and len(lam.args.args) == 1:
+                        count[0] += 1
+                        v = "_mapped_%d" % count[0]
+                        elt = _Subst({lam.args.args[0].arg: ast.Name(id=v, ctx=ast.Load())}).visit(copy.deepcopy(lam.body))
+                        comp = [ast.comprehension(target=ast.Name(id=v, ctx=ast.Store()), iter=it, ifs=[], is_async=0)]
+                        new = ast.SetComp(elt=elt, generators=comp) if f.id == "set" else ast.ListComp(elt=elt, generators=comp)
+                        if f.id == "tuple":
+                            new = ast.Call(func=ast.Name(id="tuple", ctx=ast.Load()), args=[new], keywords=[])
+                        return ast.fix_missing_locations(ast.copy_location(new, node))
+                return node
+
+        _A().visit(fn)
+    return count[0]
+
+
 def normalise(tree):
     """unroll table-driven loops and fold constant getattr / setattr; returns (tree, number of loops unrolled)"""
     _flatten_private_bases(tree)
+    _closure_factories(tree)
     _collect_records(tree)
     _iterate_until(tree)
     _inline_pure_helpers(tree)
